@@ -290,19 +290,23 @@ StateAndCovariance = namedtuple("StateAndCovariance", ["state", "covariance"])
 
 
 def assert_valid_covariance(
-    covariance: NDArray, *, name: str = "Covariance", negative_tol: float = -1e-15
+    covariance: NDArray, *, name: str = "Covariance", negative_tol: float = -1e-9
 ):
     """
     Check that the covariance array is well formed:
 
     - symmetric (approximately)
-    - positive semidefinite (approximately)
+    - positive semidefinite (approximately, relative to its magnitude)
     """
     assert isinstance(covariance, np.ndarray)
     assert np.allclose(covariance, covariance.T)
 
     covariance_eigenvalues = np.linalg.eig(covariance)[0]
-    if np.any(covariance_eigenvalues < negative_tol):
+    # Rounding error in the eigenvalues scales with the magnitude of the
+    # matrix, so a singular (but valid) covariance shows eigenvalues of about
+    # -1e-16 * max eigenvalue. Compare relative to the largest eigenvalue.
+    scale = max(1.0, float(np.max(np.abs(covariance_eigenvalues), initial=0.0)))
+    if np.any(covariance_eigenvalues < negative_tol * scale):
         # negative definite matrix is not a valid representation of uncertainty
         raise AssertionError(
             f"Negative {str(name)}:\n{covariance}\nEigen Values: {min(covariance_eigenvalues)}\n{covariance_eigenvalues}"
